@@ -62,6 +62,9 @@ func c09Check(f *Fed, status int, body []byte, kinds []string, hit bool, applica
 	if status != 200 {
 		set[fmt.Sprintf("status %d", status)] = true
 	}
+	if n := f.Fakes.OpenBodies(); n > 0 {
+		set["a downstream response body was never closed (its connection is never released: calls behind it hang once the pool is bounded)"] = true
+	}
 	if hit && applicable {
 		for _, k := range kinds {
 			if isSignal(k) && len(errs) == 0 {
@@ -97,7 +100,7 @@ func init() {
 		Rule: "case = (world, operation with <=K fields, fault kind, position = (index of the downstream HTTP call in the execution, index inside that call's batch)); fault alphabet: 25 failure signals " +
 			"(transport error, status 500 with an error body and with a well-formed answer as body, non-JSON body, object instead of array, array short/long/empty, errors x1/x2, errors without code / without extensions, errors lists of null entries (with null, without and with data), connection broken or reset after the call arrived, trailing garbage, two answers glued, empty errors list with null data, data null, no data, node missing/string/list/number) and 10 schema-contradicting shapes " +
 			"(list entry scalar/null, scalar, list or empty list for object, object or null for list, entity without id, foreign id, null scalar); thorough adds ordered pairs of faults; oracle: process alive, handler returned, " +
-			"well-formed envelope, failure signals => errors non-empty, no value in data that no service returned, and a follow-up request on the same gateway equals its reference; non-trivial = the fault hit a sub-request",
+			"well-formed envelope, every downstream response body closed, failure signals => errors non-empty, no value in data that no service returned, and a follow-up request on the same gateway equals its reference; non-trivial = the fault hit a sub-request",
 		Assumptions: []string{"single faults (thorough: pairs) on the in-memory transport; operations through the root node() entry point are excluded (C01 finding)",
 			"hangs are decided on Engine B; here a watchdog would only report a suspected hang"},
 		Jobs: c09Jobs,
